@@ -69,7 +69,7 @@ crate::verif_harness! {
 }
 
 /// Field-by-field postcondition of `parse_chunk` against the layout in spec/fmt.rs.
-fn check_layer_chunk(data: &[u8]) -> bool {
+pub(crate) fn check_layer_chunk(data: &[u8]) -> bool {
     let got = parse_chunk(data);
     let decoded_ok = got.is_ok();
     let want = fmt::layer(data);
